@@ -26,9 +26,10 @@ CHECKS = {
                      "the real code at every run.",
                 tech="contract-based deductive verification (EXC postconditions per exit site) + known-finding replay"),
     "C16": dict(cat="proof", design="3/C16",
-                text="Ghost hook log: exact event sequences of the parent setter and deleter as postconditions; what each of "
-                     "the eight hooks may observe is a HOOKOBS obligation at its call site in the real bodies; children-level "
-                     "ordering follows from the loop invariants over parent-setter contracts.",
+                text="Ghost hook log: exact event sequences of the parent setter, the children deleter and the children setter "
+                     "(delete phase, pre_attach_children, per child 2 or 4 events at LOGPOS(j), post_attach_children last) as "
+                     "postconditions and loop invariants; what each of "
+                     "the eight hooks may observe is a HOOKOBS obligation at its call site in the real bodies.",
                 tech="contract-based deductive verification with ghost hook log"),
     "C04": dict(cat="proof", design="3/C04",
                 text="Each navigation attribute is proved, from its real body in both mixins, to equal its definition over the "
@@ -115,7 +116,9 @@ CHECKS = {
                      "cases and no exception (proved after fix: 420228b).",
                 tech="contract-based deductive verification (z3 strings/sequences), inductive lemmas discharged in SMT",
                 note="The round-trip sentence (get of an absolute / Walker-spelled relative path returns the node, for sibling-unique "
-                     "names without separator) is covered by the BOUNDED stand-in only (evidence.bounded_parts). Assumed: str built-ins "
+                     "names without separator): proved in Lean over the fold that get is proved to compute (L10) and over Walker.walk's "
+                     "contract (discharged in this check as well); the link split/join is by review, and the sentence is run on the real "
+                     "code by the BOUNDED stand-in (evidence.bounded_parts). Assumed: str built-ins "
                      "split/startswith/upper as axiomatised, navigation contract of node.root."),
     "C08": dict(cat="proof", design="3/C08",
                 text="Proved from the real bodies: cache transparency - the representation invariant of Resolver._match_cache (every "
@@ -123,15 +126,17 @@ CHECKS = {
                      "(hit, miss, miss with eviction) and __match returns the wildcard match for this resolver's own ignorecase "
                      "whatever the cache holds (all histories by invariant); __translate = the character-wise translation; "
                      "is_wildcard; glob = __start with the wildcard matcher (root component rules, relax -> []) then __glob; and the recursive "
-                     "descent __glob/__find in relaxed mode: the result is the denotation GL of the statement ('..', '', '.', '**' as "
+                     "descent __glob/__find in both modes: a returned list is the denotation GL of the statement ('..', '', '.', '**' as "
                      "de-duplicated union over the pre-order of the subtree, wildcard/literal components over the matching children in "
-                     "order) and nothing is raised; exceptions occur in strict mode only.",
+                     "order); relaxed mode raises nothing; strict mode (sibling-unique names) raises only at a raise statement that is "
+                     "under its dead-end condition, and whenever an error leaves __glob/__find the remaining components denote nothing "
+                     "(so errors swallowed by wildcard / '**' alternatives lose no match - proved after fix: c7ab0b3).",
                 tech="contract-based deductive verification (representation invariant of the shared cache, z3 strings)",
-                note="Strict mode of __glob/__find (which errors are raised or swallowed: dead-end rule, agreement with get) and the "
+                note="Agreement of strict glob with get on wildcard-free paths (same node, same error class) and the "
                      "pre-order / duplicate-freeness reading of GL are covered by the BOUNDED stand-in run in both tiers "
                      "(evidence.bounded_parts), never counted as proved. "
                      "`re` semantics assumed (validated boundedly). Repaired by fix: ae02eb6 (strict glob blamed an existing literal "
-                     "component)."),
+                     "component) and fix: c7ab0b3 (a '**' alternative hitting the root under a wildcard lost the other matches)."),
     "C09": dict(cat="proof", design="3/C09",
                 text="_is_last (look-ahead generator), RenderTree.__iter__, the recursive row generator __next and the row assembly "
                      "__item are proved from their real bodies equal to the recursive specification ROWS (one row per node while "
@@ -139,7 +144,8 @@ CHECKS = {
                      "root row empty, otherwise joined bar/blank segments plus continue/end branch); the built-in styles pass "
                      "three literals of equal width (syntactic obligations).",
                 tech="contract-based deductive verification (z3 sequences/strings/datatypes), inductive lemma in SMT",
-                note="str(RenderTree), by_attr(), _format_row_any and the Node/AnyNode reprs, and the closed-form reading (bridge L8), "
+                note="The closed-form reading of ROWS is lemma L8 (Lean, childiter = identity). str(RenderTree), by_attr(), "
+                     "_format_row_any and the Node/AnyNode/SymlinkNode reprs "
                      "are covered by the BOUNDED stand-in run in both tiers (evidence.bounded_parts), never counted as proved."),
     "C17": dict(cat="other", design="3/C17",
                 text="IDENT obligations decided by a kind analysis of the real AST of every function of the listed modules: no truth "
@@ -166,7 +172,8 @@ CHECKS = {
                      "options feed the shared __import, whose tree is returned.",
                 tech="contract-based deductive verification on an ordered effect log (relative to an assumed contract on json)",
                 note="Proof RELATIVE to the assumed dependency contract json.loads(json.dumps(d)) == d for JSON-representable d, which is "
-                     "validated only boundedly; the end-to-end round trip additionally rests on C10."),
+                     "validated only boundedly; the DictExporter/DictImporter contracts (C10) the JSON classes delegate to are "
+                     "discharged in this check as well."),
     "C10": dict(cat="proof", design="3/C10",
                 text="DictExporter.export, the recursive __export and _iter_attr_values are proved from their real bodies against the "
                      "recursive export predicate of the statement: every exported dictionary is made by dictcls from attriter(all "
@@ -176,8 +183,10 @@ CHECKS = {
                 tech="contract-based deductive verification with observers on fresh values and a recursive predicate (z3)",
                 note="DictImporter.__import is under an effect-log contract (argument copied and never written, 'children' popped from the "
                      "copy, one node constructed from the remaining attributes, every child imported in order under it); that the "
-                     "result is isomorphic and the two round-trip sentences (L9) are covered by the BOUNDED stand-in run in both tiers "
-                     "(evidence.bounded_parts), never counted as proved."),
+                     "result is isomorphic and the two round-trip sentences hold on the abstraction is lemma L9 (Lean); the link "
+                     "effect log <-> abstract import is by review and run by the BOUNDED stand-in in both tiers "
+                     "(evidence.bounded_parts), never counted as proved. The constructor contracts of the default node class are "
+                     "discharged here as well."),
 }
 REASONS = {}
 
